@@ -116,7 +116,7 @@ class Check:
 
     # ---- running the engine on a package of /repo (or a scratch module) with overlay harness files ----
     def run_pkg(self, moddir, pkg_pattern, pkgdir, pkgname, harness_files, regex, params=None, workers=16, wall=None,
-                max_models=20, extra_flags=(), label=None, feas_ms=None, oblig_ms=None, expect_covers=True, gen=None, max_paths=None, soft_trunc=False):
+                max_models=20, extra_flags=(), label=None, feas_ms=None, oblig_ms=None, expect_covers=True, gen=None, max_paths=None, soft_trunc=False, extra_overlays=None, soft_problem_rx=None):
         gose = ensure_gose()
         params = params or {}
         rts = rt_files(pkgname, self.scratch)
@@ -127,6 +127,9 @@ class Check:
             v = os.path.join(pkgdir, os.path.basename(hf))
             overlays[v] = hf
             test_overlays[v] = hf
+        for v, real in (extra_overlays or {}).items():
+            overlays[v] = real
+            test_overlays[v] = real
         out = self.scratch.path("res_%d.json" % len(self.runs))
         cmd = [gose, "run", "-dir", moddir, "-pkg", pkg_pattern, "-tags", "verif", "-harness", regex, "-workers", str(workers), "-models", str(max(0, max_models)), "-out", out]
         for k, v in overlays.items():
@@ -164,6 +167,10 @@ class Check:
                 continue
             self.runs.append(h)
             for pr in probs:
+                if soft_problem_rx and re.search(soft_problem_rx, pr):
+                    # a stated region the exploration does not cover (recorded, not a success and not an alarm)
+                    self.not_covered.append({"harness": h["Name"], "schema": ctx["label"], "reason": pr.split("\n")[0][:300]})
+                    continue
                 self.problems.append("%s: %s" % (h["Name"], pr.split("\n")[0][:300]))
             for u in h.get("Unknowns") or []:
                 self.problems.append("%s: solver unknown on %s" % (h["Name"], u))
@@ -176,12 +183,17 @@ class Check:
         return rep
 
     def _go_test(self, ctx, casedir):
-        ov = self.scratch.path("overlay_%d.json" % len(os.listdir(self.scratch.dir)))
+        """builds the package's test binary with the harness overlays and runs it (no dependence on the package directory existing on disk)"""
+        n = len(os.listdir(self.scratch.dir))
+        ov = self.scratch.path("overlay_%d.json" % n)
         json.dump({"Replace": ctx["test_overlays"]}, open(ov, "w"))
+        binp = self.scratch.path("testbin_%d" % n, "verif.test")
         env = goenv()
+        rc, txt = sh(["go", "test", "-c", "-tags", "verif", "-vet=off", "-overlay", ov, "-o", binp, ctx["pkg_pattern"]], cwd=ctx["moddir"], env=env, timeout=1200)
+        if rc != 0 or not os.path.exists(binp):
+            return rc or 1, txt
         env["VERIF_CASE_DIR"] = casedir
-        cmd = ["go", "test", "-tags", "verif", "-vet=off", "-count=1", "-overlay", ov, "-run", "^TestVerifReplay$", ctx["pkg_pattern"]]
-        return sh(cmd, cwd=ctx["moddir"], env=env, timeout=1200)
+        return sh([binp, "-test.run", "^TestVerifReplay$", "-test.count=1"], cwd=os.path.dirname(binp), env=env, timeout=1200)
 
     def _native(self, harnesses, ctx, max_models):
         """native validation of sampled models of passing paths + replay of violations"""
